@@ -22,6 +22,8 @@ Cases == TLCGet(1)
 
 \* structural equality with the stated latitudes: a date-time without a zone name (fixed offset)
 \* matches any zone name; everything else is exact
+\* "the same version": equal as version numbers (2.0 = 2.0.0; hszinc normalises the spelling)
+VerEq(a, b) == a = b \/ (V!Valid(a) /\ V!Valid(b) /\ V!Eq(V!Parse(a), V!Parse(b)))
 RECURSIVE VEq(_, _)
 PairsEq(p, q) == Len(p) = Len(q) /\ \A i \in 1..Len(p) : p[i][1] = q[i][1] /\ VEq(p[i][2], q[i][2])
 SeqEq(p, q)   == Len(p) = Len(q) /\ \A i \in 1..Len(p) : VEq(p[i], q[i])
@@ -30,7 +32,7 @@ VEq(a, b) ==
     ELSE CASE a[1] = 14 -> SubSeq(a, 1, 10) = SubSeq(b, 1, 10) /\ (a[11] = <<>> \/ b[11] = <<>> \/ a[11] = b[11])
            [] a[1] = 16 -> SeqEq(a[2], b[2])
            [] a[1] = 17 -> PairsEq(a[2], b[2])
-           [] a[1] = 18 -> /\ a[2] = b[2]
+           [] a[1] = 18 -> /\ VerEq(a[2], b[2])
                            /\ PairsEq(a[3], b[3])
                            /\ Len(a[4]) = Len(b[4])
                            /\ \A i \in 1..Len(a[4]) : a[4][i][1] = b[4][i][1] /\ PairsEq(a[4][i][2], b[4][i][2])
@@ -45,7 +47,7 @@ DiffClause(d, e) ==
     IF Len(d) # Len(e) THEN "grid_count"
     ELSE LET i == CHOOSE k \in 1..Len(d) : ~VEq(d[k], e[k]) /\ \A j \in 1..(k - 1) : VEq(d[j], e[j])
              a == d[i]  b == e[i]
-         IN IF a[2] # b[2] THEN "version"
+         IN IF ~VerEq(a[2], b[2]) THEN "version"
             ELSE IF ~PairsEq(a[3], b[3]) THEN "grid_meta"
             ELSE IF Len(a[4]) # Len(b[4]) THEN "column_count"
             ELSE IF \E c \in 1..Len(a[4]) : a[4][c][1] # b[4][c][1] THEN "column_name"
@@ -53,6 +55,16 @@ DiffClause(d, e) ==
             ELSE IF Len(a[5]) # Len(b[5]) THEN "row_count"
             ELSE IF \E r \in 1..Len(a[5]) : Len(a[5][r]) # Len(b[5][r]) THEN "cell_count"
             ELSE "cell_value"
+
+\* C09: the reported line/column lie within the text handed to the grammar (or are the "unknown" (0,0))
+Lines(t) == LET nls == SelectSeq([i \in 1..Len(t) |-> IF t[i] = NL THEN i ELSE 0], LAMBDA x : x # 0)
+            IN [k \in 1..(Len(nls) + 1) |->
+                  (IF k <= Len(nls) THEN nls[k] ELSE Len(t) + 1) - (IF k = 1 THEN 0 ELSE nls[k - 1]) - 1]
+PosOk(t, line, col) ==
+    \/ line = 0 /\ col = 0
+    \/ \E L \in {Lines(t)} : /\ line >= 1 /\ line <= Len(L) + 1
+                              /\ col >= 1
+                              /\ col <= (IF line <= Len(L) THEN L[line] ELSE 0) + 1
 
 Judge(c) ==
     \E r \in {Result(ZRead(c.text, c.strict))} :
@@ -63,8 +75,13 @@ Judge(c) ==
         ELSE IF c.k = "same" THEN        \* two abstract documents (e.g. a grid and its round trip)
             (IF DocEq(c.a, c.b) THEN PrintT(<<"OK", c.id>>)
              ELSE PrintT(<<"REJECT", c.id, "differs_" \o DiffClause(c.a, c.b), 0>>))
+        ELSE IF c.k = "scalar" THEN      \* scalar parsing: a value or a ValueError-family exception
+            (IF c.out \in {"value", "valueerror"} THEN PrintT(<<"OK", c.id>>)
+             ELSE PrintT(<<"REJECT", c.id, "scalar_other_exception", 0>>))
         ELSE \* "outcome"
-            IF r.ok THEN
+            IF c.out = "timeout" THEN PrintT(<<"REJECT", c.id, "did_not_terminate", 0>>)
+            ELSE IF c.out = "zpe" /\ ~PosOk(c.gtext, c.line, c.col) THEN PrintT(<<"REJECT", c.id, "position_outside_text", 0>>)
+            ELSE IF r.ok THEN
                 (IF c.out = "grid" THEN
                     (IF r.amb \/ DocEq(r.grids, c.abs) THEN PrintT(<<"OK", c.id>>)
                      ELSE PrintT(<<"REJECT", c.id, "misparsed_" \o DiffClause(r.grids, c.abs), 0>>))
